@@ -75,11 +75,16 @@ func (self *StreamDecoder) Decode(val interface{}) (err error) {
 		// try skip
 		var x = 0
 		if y := native.SkipOneFast(&src, &x); y < 0 {
-			if self.readMore() {
+			code := types.ParsingError(-y)
+			if self.buf[s] == 0 {
+				code = types.ERR_INVALID_CHAR // the skip reports a NUL byte as end of input
+			}
+			// only an incomplete value can be completed by reading more
+			if code == types.ERR_EOF && self.readMore() {
 				goto try_skip
 			}
 			if self.err == nil {
-				self.err = SyntaxError{e, self.s, types.ParsingError(-s), ""}
+				self.err = SyntaxError{Pos: s, Src: string(self.buf), Code: code}
 				self.setErr(self.err)
 			}
 			if self.err == io.EOF {
